@@ -5,7 +5,7 @@
 set -u
 id=$1; k=$2
 SRC=${SEEDSRC:-/tmp/seed-out}/$id
-WT=/tmp/verify-wt
+WT=${VERIFY_WT:-/tmp/verify-wt}
 FEAT=""
 [ "$id" = C17 ] && FEAT="--features serde-json"
 if [ ! -d $WT ]; then git -C /repo worktree add -q --detach $WT HEAD || exit 2; fi
@@ -17,9 +17,9 @@ mkdir -p $WT/tests; cp "$SRC/demo$k.rs" $WT/tests/seed_demo.rs
 envs=""
 [ -f "$SRC/env$k.txt" ] && envs=$(cat "$SRC/env$k.txt")
 # demo on the pristine tree
-if (cd $WT && env $envs cargo test --offline $FEAT --test seed_demo >/tmp/verify-demo-pristine.log 2>&1); then res="$res demo-passes-without"; else res="$res DEMO-FAILS-WITHOUT"; fi
+if (cd $WT && env $envs cargo test --offline $FEAT --test seed_demo >$WT.demo-pristine.log 2>&1); then res="$res demo-passes-without"; else res="$res DEMO-FAILS-WITHOUT"; fi
 git -C $WT apply "$SRC/patch$k.diff"
-if (cd $WT && env $envs cargo test --offline $FEAT --test seed_demo >/tmp/verify-demo-patched.log 2>&1); then res="$res DEMO-PASSES-WITH"; else res="$res demo-fails-with"; fi
+if (cd $WT && env $envs cargo test --offline $FEAT --test seed_demo >$WT.demo-patched.log 2>&1); then res="$res DEMO-PASSES-WITH"; else res="$res demo-fails-with"; fi
 rm -rf $WT/tests
 # the existing suite with the change (default configuration)
 if (cd $WT && cargo test --workspace --no-fail-fast --offline 2>&1 | grep -E "^test result" | grep -v " 0 failed" | grep -q .); then res="$res SUITE-FAILS"; else
